@@ -49,8 +49,22 @@ def onGetD19 (c wall : Nat) : Option Nat :=
      | none => none)
   | .error _ => none
 
-/-- `Register(r)`: the clock afterwards (the actor never stops here). -/
+/-- `Register(r)`: the clock afterwards (the actor never stops here).  When `recv` finds no counter
+value left for the instant of the remote stamp (`Overflow`), the clock moves to the first stamp of
+the instant after it, under its own node id, unless it is beyond that already (fix D36: no second
+`recv`, which refused that instant when the remote sat exactly at the drift limit). -/
 def onRegister (c wall r : Nat) : Nat :=
+  match recv c wall r with
+  | .ok (c', _) => c'
+  | .err .overflow =>
+    (match nextInstant r (node c) with
+     | some n => if c < n then n else c
+     | none => c)
+  | _ => c
+
+/-- The `Register` arm between the fixes D19 and D36: the instant after the remote stamp went
+through a second `recv`. -/
+def onRegisterD19 (c wall r : Nat) : Nat :=
   match recv c wall r with
   | .ok (c', _) => c'
   | .err .overflow =>
